@@ -6,6 +6,7 @@
 mod c31;
 mod c32;
 mod c33;
+mod demo;
 mod generator;
 mod model;
 
@@ -17,6 +18,7 @@ fn main() {
         "C31" => c31::run(&args),
         "C32" => c32::run(&args),
         "C33" => c33::run(&args),
+        "DEMO" => demo::run(),
         other => panic!("vh-auth does not serve {other}"),
     }
 }
